@@ -51,6 +51,7 @@ type c20Pair struct {
 	argv  []string
 	solo  string
 	typed bool // declared with the built-in typed variables (Bool/Int/Ints/String/Strings): conversions can fail
+	exit  int  // non-zero: the Action calls Exit(exit) and the After is slow
 }
 
 func runC20(c *core.Ctx) {
@@ -80,12 +81,33 @@ func runC20(c *core.Ctx) {
 			pool = append(pool, c20Pair{p: p, argv: argv, typed: typed})
 		}
 	}
-	run := func(pr c20Pair) string {
+	// long lines (deep recursion in every concurrent parse) and applications that end through Exit after a slow After
+	lx := &ArgDecl{Name: "X", Multi: true}
+	la := &OptDecl{Names: []string{"a"}, Flag: true}
+	lp := &Prog{Opts: []*OptDecl{la}, Args: []*ArgDecl{lx}}
+	lp.AST = &Node{K: KSeq, Kids: []*Node{{K: KOptional, Kids: []*Node{{K: KOpt, Opt: la, Name: "-a"}}}, {K: KRep, Kids: []*Node{{K: KArg, Arg: lx}}}}}
+	lp.Spec = lp.AST.String()
+	for k := 0; k < 4; k++ {
+		argv := []string{"-a"}
+		for i := 0; i < 120+40*k; i++ {
+			argv = append(argv, "w")
+		}
+		pool = append(pool, c20Pair{p: lp, argv: argv})
+	}
+	for k := 0; k < 8; k++ {
+		pool = append(pool, c20Pair{p: &Prog{}, exit: 20 + k})
+	}
+	mkApp := func(pr c20Pair) *drive.App {
 		app := drive.Single(pr.p)
 		app.Shared = true
 		app.Builtin = pr.typed
-		return drive.OutcomeKey(pr.p, drive.Run(app, pr.argv))
+		if pr.exit != 0 {
+			app.Root.Action = drive.Beh{Kind: drive.BehExit, Code: pr.exit}
+			app.Root.After = drive.Beh{Kind: drive.BehReturn, Spin: 50}
+		}
+		return app
 	}
+	run := func(pr c20Pair) string { return drive.OutcomeKey(pr.p, drive.Run(mkApp(pr), pr.argv)) }
 	c.Journal(map[string]interface{}{"round": c.Index, "pool": len(pool), "first_spec": pool[0].p.Spec, "first_argv": pool[0].argv})
 	// (a) solo, (c) rebuild
 	for i := range pool {
@@ -98,7 +120,7 @@ func runC20(c *core.Ctx) {
 		c.Inc("rebuild_equal")
 		// the solo outcome itself is checked against the reference: an outcome that is stable but wrong because of what
 		// an earlier application left behind in the process would otherwise pass every equality below
-		if !pool[i].typed && !FoldedEq(pool[i].p, pool[i].argv) {
+		if !pool[i].typed && pool[i].exit == 0 && pool[i].p.AST != nil && !FoldedEq(pool[i].p, pool[i].argv) {
 			if v, _ := decideBoth(pool[i].p, BuildNFA(pool[i].p, false), BuildNFA(pool[i].p, true), pool[i].argv); !v.Unclaimed {
 				if acc := strings.HasPrefix(pool[i].solo, "ACCEPT"); acc != v.Accept && (acc || pool[i].solo == "REJECT") {
 					c.Violation(fmt.Sprintf("application run after others in the same process: reference accept=%v, outcome %s", v.Accept, pool[i].solo), map[string]interface{}{"spec": pool[i].p.Spec, "decl": DeclStr(pool[i].p), "argv": pool[i].argv}, nil)
@@ -130,10 +152,7 @@ func runC20(c *core.Ctx) {
 		var prs []c20Pair
 		for i := 0; i < n; i++ {
 			pr := pool[c.R.Intn(len(pool))]
-			app := drive.Single(pr.p)
-			app.Shared = true
-			app.Builtin = pr.typed
-			built = append(built, drive.Build(app))
+			built = append(built, drive.Build(mkApp(pr)))
 			prs = append(prs, pr)
 		}
 		for _, i := range c.R.Perm(n) {
@@ -149,7 +168,7 @@ func runC20(c *core.Ctx) {
 	// sequence stops once a run has given an env-backed option on the command line: the library then drops its
 	// environment fallback for good, a documented side effect)
 	for i := 0; i+3 < len(pool); i += 4 {
-		if pool[i].typed || pool[i].p != pool[i+3].p {
+		if pool[i].typed || pool[i].p != pool[i+3].p || pool[i].exit != 0 {
 			continue
 		}
 		app := drive.Single(pool[i].p)
@@ -183,8 +202,7 @@ func runC20(c *core.Ctx) {
 		}
 	}
 	withIn := func(pr c20Pair, in func()) string {
-		app := drive.Single(pr.p)
-		app.Shared, app.Builtin = true, pr.typed
+		app := mkApp(pr)
 		app.Root.InAction = in
 		return drive.OutcomeKey(pr.p, drive.Run(app, pr.argv))
 	}
